@@ -504,7 +504,7 @@ func c19KratosCase(t *testing.T, outlierMode, admitted, fallback bool, handler s
 	if fallback {
 		opts = append(opts, WithBlockFallback(func(context.Context, interface{}, error) (interface{}, error) {
 			c.fallbackCalled()
-			return "c19 fallback resp", c19ErrFallback
+			return "c19 fallback resp", c19FbResult(handler)
 		}))
 	}
 	mw := SentinelClientMiddleware(opts...)
@@ -540,6 +540,10 @@ func c19KratosCase(t *testing.T, outlierMode, admitted, fallback bool, handler s
 	var err error
 	c.EscapedPanic = c19Guard(func() { resp, err = h(ctx, "c19 req") })
 	c.Response = c19ErrText(err)
+	if !admitted && fallback {
+		// the caller must get exactly what the fallback answered
+		c.Body, c.FallbackBody, c.BodyChecked = c19ErrText(err), c19ErrText(c19FbResult(handler)), true
+	}
 	c.DefaultRejectionSeen = c19IsBlockErr(err)
 	c.Notes = fmt.Sprintf("middleware called directly; handler = the wrapped middleware.Handler; ctx has client Transporter + client metadata + selector.Peer (Node set by the handler); returned_resp=%v", resp)
 	if outlierMode {
@@ -549,3 +553,12 @@ func c19KratosCase(t *testing.T, outlierMode, admitted, fallback bool, handler s
 }
 
 func init() { c19UsesCtx = true }
+
+// c19FbResult is what the configured fallback answers: an error of its own, or nil (graceful degradation: the
+// caller is served something else and must not see a rejection) - the handler dimension is free on the blocked path.
+func c19FbResult(handler string) error {
+	if handler == "ok" {
+		return nil
+	}
+	return c19ErrFallback
+}
